@@ -10,6 +10,7 @@ query and generate the body of the `FETCH` response IMAP message.
 #
 import email.utils
 import logging
+import re
 from email.header import Header
 from email.message import EmailMessage, Message
 from enum import StrEnum
@@ -25,8 +26,14 @@ if TYPE_CHECKING:
 
 # from .generator import msg_as_string, msg_headers_as_string
 from .generator import msg_as_bytes, msg_headers_as_bytes
+from .utils import imap_quote, imap_string
 
 logger = logging.getLogger("asimap.fetch")
+
+# A header field name that can be sent back as an atom in the name of a
+# `BODY[HEADER.FIELDS (...)]` data item. Anything else is sent as a string.
+#
+_ATOM_RE = re.compile(r"[^\(\)\{\}\[\] \000-\037\177-\377%\*\"\\]+")
 
 # A section in a message that can be fetched.
 # XXX `None` indicates the entire message? Or should `Optional` be removed?
@@ -76,7 +83,22 @@ def encode_header(hdr: str) -> bytes:
             result = Header(hdr).encode(maxlinelen=0).encode("latin-1")
         except UnicodeEncodeError:
             result = hdr.encode("latin-1", errors="replace")
-    return b'"' + result + b'"'
+    return imap_string(result)
+
+
+############################################################################
+#
+def encode_str(value: str) -> bytes:
+    """
+    A string that is part of a body structure (a content type, a parameter
+    name or value, ...) as an IMAP string. Encoded as latin-1, or as utf-8 if
+    it can not be encoded as latin-1.
+    """
+    try:
+        result = value.encode("latin-1")
+    except UnicodeEncodeError:
+        result = value.encode("utf-8")
+    return imap_string(result)
 
 
 ########################################################################
@@ -110,8 +132,10 @@ def encode_addrs(msg: Message, field: str) -> bytes:
 
         # mailbox and hostname MUST be latin-1 encodable is my understanding
         #
+        # NOTE: A quoted local part may have an "@" in it: `"a@b"@example.com`
+        #
         if "@" in email_address:
-            mailbox, host = email_address.split("@")
+            mailbox, host = email_address.rsplit("@", 1)
             addr.append(encode_header(mailbox))
             addr.append(encode_header(host))
         else:
@@ -231,7 +255,10 @@ class FetchAtt:
                     #
                     if isinstance(s, (list, tuple)):
                         sect = str(s[0]).upper()
-                        paren = " ".join(x for x in s[1])
+                        paren = " ".join(
+                            x if _ATOM_RE.fullmatch(x) else imap_quote(x)
+                            for x in s[1]
+                        )
                         sects.append(f"{sect} ({paren})")
                     else:
                         sects.append(str(s).upper())
@@ -557,19 +584,19 @@ class FetchAtt:
         for value in values:
             if "," in value:
                 for lng in value.split(","):
-                    langs.add(f'"{lng.strip()}"')
+                    langs.add(lng.strip())
             elif ";" in value:
                 for lng in value.split(";"):
-                    langs.add(f'"{lng.strip()}"')
+                    langs.add(lng.strip())
             else:
-                langs.add(f'"{value.strip()}"')
+                langs.add(value.strip())
 
         if not langs:
             return b"NIL"
         elif len(langs) == 1:
-            return (list(langs)[0]).encode("latin-1")
+            return encode_str(list(langs)[0])
         else:
-            return (f"({' '.join(sorted(langs))})").encode("latin-1")
+            return b"(" + b" ".join(encode_str(x) for x in sorted(langs)) + b")"
 
     ##################################################################
     #
@@ -621,13 +648,9 @@ class FetchAtt:
 
         results = []
         for k, v in params.items():
-            results.append(f'"{k.upper()}" "{v}"')
+            results.append(encode_str(k.upper()) + b" " + encode_str(str(v)))
 
-        try:
-            res = (f"({' '.join(results)})").encode("latin-1")
-        except UnicodeEncodeError:
-            res = (f"({' '.join(results)})").encode()
-        return res
+        return b"(" + b" ".join(results) + b")"
 
     ####################################################################
     #
@@ -665,16 +688,16 @@ class FetchAtt:
 
         params = msg["Content-Disposition"].params  # type: ignore[union-attr]
         if not params:
-            return (f'("{cd}" NIL)').encode("latin-1")
+            return b"(" + encode_str(cd) + b" NIL)"
 
         result = []
         for param, value in params.items():
-            result.append(f'"{param.upper()}" "{value}"')
-        res = f'("{cd.upper()}" ({" ".join(result)}))'
-        try:
-            return res.encode("latin-1")
-        except UnicodeEncodeError:
-            return res.encode("utf-8")
+            result.append(
+                encode_str(param.upper()) + b" " + encode_str(str(value))
+            )
+        return (
+            b"(" + encode_str(cd.upper()) + b" (" + b" ".join(result) + b"))"
+        )
 
     #######################################################################
     #
@@ -735,9 +758,9 @@ class FetchAtt:
             # doing a 'body' not a 'bodystructure' then we have
             # everything we need to return a result.
             #
-            subtype = (msg.get_content_subtype().upper()).encode("latin-1")
+            subtype = encode_str(msg.get_content_subtype().upper())
             if not self.ext_data:
-                res = b"(" + b"".join(sub_parts) + b'"' + subtype + b'")'
+                res = b"(" + b"".join(sub_parts) + b" " + subtype + b")"
                 return res
 
             # Get the extension data and add it to our response.
@@ -749,9 +772,9 @@ class FetchAtt:
             res = (
                 b"("
                 + b"".join(sub_parts)
-                + b' "'
+                + b" "
                 + subtype
-                + b'" '
+                + b" "
                 + b" ".join(ext_data)
                 + b")"
             )
@@ -795,8 +818,8 @@ class FetchAtt:
         #
         maintype = msg.get_content_maintype()
         msg_subtype = msg.get_content_subtype()
-        result.append((f'"{maintype.upper()}"').encode("latin-1"))
-        result.append((f'"{msg_subtype.upper()}"').encode("latin-1"))
+        result.append(encode_str(maintype.upper()))
+        result.append(encode_str(msg_subtype.upper()))
 
         result.append(self.body_parameters(msg))  # type: ignore[arg-type]
 
@@ -808,7 +831,7 @@ class FetchAtt:
             if "Content-Transfer-Encoding" in msg
             else "7BIT"
         )
-        result.append((f'"{cte}"').encode("latin-1"))
+        result.append(encode_str(str(cte)))
 
         # Body size
         payload = msg_as_bytes(msg, render_headers=False)
